@@ -146,6 +146,7 @@ def check_trace_acd(case, res, rep, lean_drive):
                     bufs.append(case.state_tokens(wk, A["arr_Xw"][:, k]))
                 line = (f"cd_extrap {prob} {case.state_tokens(pw, pXw)} {len(ws)} {wl} {Kb} "
                         + " ".join(bufs) + " " + " ".join(fb(c) for c in A["C"]))
+                ev = dict(ev, _anderson=A, _prev=(np.array(pw, copy=True), np.array(pXw, copy=True)))
                 reqs.append((line, None, "extrap", ("extrap", ev, list(ws))))
             prev = (ev["w"], ev["Xw"])
         elif kind == "inner":
@@ -191,9 +192,27 @@ def check_trace_acd(case, res, rep, lean_drive):
             # a near-tie in the acceptance test may legitimately go either way
             tie = (isinstance(objs[0], float) and isinstance(objs[1], float)
                    and abs(objs[0] - objs[1]) <= 1e-9 * (1 + abs(objs[0])))
-            ok_acc = same(got_acc, acc, 1e-6, 1e-8)
-            ok_out = same(got_out, outst, 1e-6, 1e-8) or (tie and (same(got_out, acc, 1e-6, 1e-8)
-                                                                  or same(got_out, got_acc, 1e-6, 1e-8)))
+            # an extrapolated coordinate within rounding of a constraint bound may be feasible in one
+            # floating-point evaluation and infeasible in the other
+            wa = np.asarray(wacc[:p], float)
+            lo = float(np.min(wa)) if p else 0.0
+            hi = float(np.max(wa)) if p else 0.0
+            pk = case.pen
+            if (pk.kind in Pen.HAS_POS and pk.positive) or pk.kind in ("pos", "box"):
+                if abs(min(lo, 0.0)) <= 1e-9 and (pk.kind != "box" or abs(max(hi - pk.alpha, 0.0)) <= 1e-9):
+                    if (lo < 1e-9) or (pk.kind == "box" and hi > pk.alpha - 1e-9):
+                        tie = True
+            # cancellation in sum_k c_k w_k: errors scale with |c| * |iterates|
+            A = ev.get("_anderson")
+            cs = 1.0 + (float(np.max(np.abs(A["C"]))) if A is not None else 0.0) * (
+                1.0 + (float(np.max(np.abs(A["arr_Xw"]))) if A is not None else 0.0))
+            at = 1e-9 * cs
+            ok_acc = same(got_acc, acc, 1e-6, at)
+            pw_, pXw_ = ev["_prev"]
+            got_cur = [float(x) for x in pw_[:p]] + [float(pw_[p]) if fi else 0.0] + [float(x) for x in pXw_]
+            ok_out = same(got_out, outst, 1e-6, at) or (tie and (same(got_out, acc, 1e-6, at)
+                                                                 or same(got_out, got_acc, 1e-6, at)
+                                                                 or same(got_out, got_cur, 1e-6, at)))
             ok = ok_acc and ok_out
             got = dict(acc=got_acc, out=got_out)
             m = dict(acc=acc, objs=objs, out=outst)
@@ -491,5 +510,24 @@ def gen_case(rng, df_kinds=None, pen_kinds=None, degenerate=False, warm=None, bu
             w_init[:p] = np.abs(w_init[:p])
         if pen.kind == "box":
             w_init[:p] = np.minimum(w_init[:p], pen.alpha)
+    if pen.kind == "wl1" and rng.random() < 0.25 and dk != "svc":
+        # warm start whose support does not fit in the working set: many unpenalised features at zero,
+        # all penalised features non-zero, smallest p0
+        p = max(p, 10)
+        X = gen_matrix(rng, n, p, "gauss")
+        u = rng.randrange(3, 6)
+        wts = np.array([0.0] * u + [rng.choice([0.5, 1.0, 2.0]) for _ in range(p - u)])
+        flip = rng.random() < 0.6          # which tied features argpartition drops depends on their position
+        knobs["p0"] = 1
+        knobs["max_epochs"] = rng.choice([7, 8, 13, 14, 30])
+        knobs["max_iter"] = rng.choice([1, 2, 5])
+        w_init = np.array([0.0] * u + [rng.choice([0.5, 1.0, -1.0, 2.0]) for _ in range(p - u)]
+                          + ([rng.choice([0.0, 1.0])] if knobs["fit_intercept"] else []))
+        if pen.positive:
+            w_init[:p] = np.abs(w_init[:p])
+        if flip:
+            wts = wts[::-1].copy()
+            w_init[:p] = w_init[:p][::-1].copy()
+        mode = "support-exceeds-ws"
     sparse = rng.random() < 0.35
     return CDCase(df, pen, wts, X, y, sw, knobs, sparse=sparse, w_init=w_init, label=mode)
